@@ -33,6 +33,7 @@ type Analysis struct {
 	OpaqueFields    map[string]bool                                   // "Struct.field": loads are never store-forwarded (always versioned atoms)
 	EventArgs       func(st *State, desc string, args []*Expr) string // optional argument rendering for call events
 	StoreHook       func(st *State, addr, val *Expr, in *ssa.Store)   // optional observer of every store (also in inlined helpers)
+	AfterFlow       func(from, to *ssa.BasicBlock, st *State)         // optional: strengthen the state entering a block (loop-head assumptions of a rule)
 	ForceInline     map[string]bool                                   // known functions analysed in caller context by this analysis only
 	EventsInInlined bool
 
@@ -1285,6 +1286,9 @@ func (a *Analysis) flow(st *State, from, to *ssa.BasicBlock) *State {
 			}
 		}
 	}
+	if a.AfterFlow != nil {
+		a.AfterFlow(from, to, n)
+	}
 	return n
 }
 
@@ -1817,6 +1821,7 @@ func (a *Analysis) inlineMulti(st *State, c *ssa.Call, callee *ssa.Function) ([]
 	sub := NewAnalysis(a.P, callee)
 	sub.AtomHook, sub.EventArgs, sub.CallModel, sub.NoInline, sub.TrackFields, sub.OpaqueFields = a.AtomHook, a.EventArgs, a.CallModel, a.NoInline, a.TrackFields, a.OpaqueFields
 	sub.StoreHook, sub.ForceInline = a.StoreHook, a.ForceInline
+	sub.AfterFlow = a.AfterFlow
 	sub.baseFrame = nf
 	sub.stack = append(append([]*ssa.Function{}, a.stack...), a.Fn)
 	seen := map[int64]bool{}
